@@ -13,15 +13,38 @@ mkdir -p .work/bin
 BIN=".work/bin/check.$$"
 IBIN=".work/bin/check-instr.$$"
 trap 'rm -f "$BIN" "$IBIN"' EXIT
+# run <binary> <args>: a Go runtime "fatal error: concurrent map ..." cannot be recovered by a harness. When the innermost
+# non-runtime frame of the crashing goroutine is LIBRARY code (independent values handled on different goroutines share
+# unguarded state inside the library), that is a violation found by crashing the checker - reported as one, the trace being the
+# replay artefact - and not a tool error. Anything else keeps its exit code.
+run() {
+  local log rc first out f
+  log="$(mktemp .work/stderr.XXXXXX)"
+  { "$@" 2>&1 1>&3 | tee "$log" >&2; rc=${PIPESTATUS[0]}; } 3>&1
+  if [ "$rc" -ge 2 ] && grep -q '^fatal error: concurrent map' "$log"; then
+    first=$(awk '/^fatal error: concurrent map/{f=1} f && /^\t\//{ if ($1 !~ /\/src\/(runtime|internal\/runtime)\//) {print $1; exit} }' "$log")
+    case "$first" in
+      "$VERIF_REPO"/*)
+        out="${VERIF_OUT:-$VERIF_ROOT}/replays"; mkdir -p "$out"; f="$out/$ID-crash.txt"
+        sed -n '/^fatal error: concurrent map/,$p' "$log" | head -120 > "$f"
+        echo "VIOLATION property=$ID replay=$f"
+        echo "  key=fatal-concurrent-map-access"
+        echo "  the library crashed the process (unguarded state shared between calls on independent values): $first"
+        rc=1 ;;
+    esac
+  fi
+  rm -f "$log"
+  return "$rc"
+}
 case "$ID" in
   C10|C18)
     scripts/build_instr.sh "$IBIN" || { echo "tool error: instrumented build failed" >&2; exit 2; }
-    "$IBIN" "$ID" "$TIER" "$@"
+    run "$IBIN" "$ID" "$TIER" "$@"
     exit $? ;;
   C16|C08|C06)
     scripts/build_instr.sh "$IBIN" || { echo "tool error: instrumented build failed" >&2; exit 2; }
     export VERIF_INSTR_BIN="$(pwd)/$IBIN" ;;
 esac
 go build -tags verif -o "$BIN" ./cmd/check || { echo "tool error: build failed" >&2; exit 2; }
-"$BIN" "$ID" "$TIER" "$@"
+run "$BIN" "$ID" "$TIER" "$@"
 exit $?
